@@ -342,14 +342,17 @@ class Renderer:
 class Skeleton:
     """Canonical text + real tokens + ground truth for one program."""
 
-    def __init__(self, lang, items, label="", comments=False):
+    def __init__(self, lang, items, label="", comments=False, text=None):
         from pygments.lexers import get_lexer_by_name
         from codelimit.common.lexer_utils import lex
         from codelimit.common.source_utils import filter_tokens
         self.lang, self.label = lang, label
-        rd = Renderer(lang, comments)
-        self.text = rd.render(items)
-        self.regions = rd.regions
+        if text is not None:          # a real-world file (vendored corpus): no generator ground truth, metamorphic modes only
+            self.text, self.regions = text, []
+        else:
+            rd = Renderer(lang, comments)
+            self.text = rd.render(items)
+            self.regions = rd.regions
         from codelimit.common.Location import Location
         from codelimit.common.Token import Token
         # token positions are the ORACLE's own: Pygments offsets mapped to (line, column) by splitting the text on "\n" only
@@ -543,6 +546,20 @@ def extra_programs(lang):
         P["x-decl-first"] = [DECL(), F("f1", [S(), IF([S()]), RET()]), F("f2", [S(), RET()])]
         P["x-decl-middle"] = [F("f1", [S(), RET()]), DECL(), DECL(), F("f2", [S(), LOOP([S()]), RET()]), F("f3", [RET()])]
     return P
+
+
+CORPUS_DIR = {"C": "c", "Cpp": "cpp", "CSharp": "cs", "Java": "java", "Python": "py", "JavaScript": "js", "TypeScript": "ts"}
+
+
+def corpus_files(lang):
+    """vendored real-world sources (/verif/corpus/<dir>/, see corpus/README.md) -> [(label, text)]"""
+    import os
+    d = os.path.join(os.path.dirname(os.path.dirname(os.path.abspath(__file__))), "corpus", CORPUS_DIR[lang])
+    out = []
+    for n in sorted(os.listdir(d)) if os.path.isdir(d) else []:
+        with open(os.path.join(d, n), encoding="utf-8", newline="") as f:
+            out.append(("corpus:" + n, f.read().replace("\r\n", "\n")))
+    return out
 
 
 def build_all(lang, tier="quick", seed=0):
